@@ -117,6 +117,8 @@ func runSLCase(p *sut.Proc, sc slCase, serverPub []byte) (out slOutcome) {
 	var tBeforeFinalIssued, tFinalReceived time.Time
 	var final *hagallpb.SignedLatencyResponse
 	restarted := false
+	var invalidID uint32
+	invalidRefused := 0
 	for round := 1; final == nil; round++ {
 		if round > int(sc.N)+3 {
 			out.findings = append(out.findings, c18f("rounds/too-many", trig, "%s: the server issued more than %d ping requests: %v", sc, sc.N, issued))
@@ -130,6 +132,10 @@ func runSLCase(p *sut.Proc, sc slCase, serverPub []byte) (out slOutcome) {
 		for _, e := range before {
 			if _, isErr := e.M.(*hagallpb.ErrorResponse); isErr && (sc.Behave == "duplicate" || sc.Behave == "unknown") {
 				continue // the refusal of the misbehaving answer
+			}
+			if er, isErr := e.M.(*hagallpb.ErrorResponse); isErr && sc.Behave == "invalid-mid" && er.RequestId == invalidID {
+				invalidRefused++
+				continue // the refusal of the invalid request sent in the middle
 			}
 			out.findings = append(out.findings, c18f("rounds/unexpected-message", trig, "%s: unexpected %s during the measurement", sc, e))
 		}
@@ -159,6 +165,17 @@ func runSLCase(p *sut.Proc, sc slCase, serverPub []byte) (out slOutcome) {
 			time.Sleep(slDelay)
 		case sc.Behave == "unknown" && n == 2:
 			answer(id ^ 0x5a5a5a5a) // an id the server never issued
+		case sc.Behave == "invalid-mid" && n == 2 && invalidID == 0:
+			// an invalid request in the middle of the measurement: refused, and the
+			// measurement in progress goes on as if nothing had been sent (C04, C18)
+			invalidID = c.NextReqID()
+			bad := &hagallpb.SignedLatencyRequest{Type: d.TSignedLatReq, Timestamp: d.NewTag(), RequestId: invalidID, IterationCount: 2, WalletAddress: "0xREFUSED"}
+			if sc.DupRound%2 == 1 {
+				bad.IterationCount, bad.WalletAddress = 7, ""
+			}
+			if err := c.Send(bad); err != nil {
+				panic(err)
+			}
 		case sc.Behave == "restart" && n == 2 && !restarted:
 			// a new measurement supersedes the one in progress
 			restarted = true
@@ -174,8 +191,30 @@ func runSLCase(p *sut.Proc, sc slCase, serverPub []byte) (out slOutcome) {
 	}
 	out.completed = true
 
+	if sc.Behave == "invalid-mid" {
+		win, err := c.Barrier()
+		if err != nil {
+			panic(err)
+		}
+		for _, e := range win {
+			if er, ok := e.M.(*hagallpb.ErrorResponse); ok && er.RequestId == invalidID {
+				invalidRefused++
+			}
+			if r, ok := e.M.(*hagallpb.SignedLatencyResponse); ok {
+				out.findings = append(out.findings, c18f("response/not-exactly-one-per-request", trig, "%s: a second report arrived (request id %d) after the measurement completed", sc, r.RequestId))
+			}
+		}
+		if invalidRefused != 1 {
+			out.findings = append(out.findings, &check.Finding{Props: []string{"C18", "C04"}, Clause: "start/invalid-request-not-refused", Trigger: trig, Engine: "C18 signed-latency scripts",
+				Detail: fmt.Sprintf("%s: the invalid request (id %d) sent in the middle of the measurement got %d error answers (want 1)", sc, invalidID, invalidRefused)})
+		}
+	}
 	// --- the response
 	if final.RequestId != reqID {
+		if sc.Behave == "invalid-mid" {
+			out.findings = append(out.findings, &check.Finding{Props: []string{"C18", "C04"}, Clause: "refused-request/changed-the-measurement", Trigger: trig, Engine: "C18 signed-latency scripts",
+				Detail: fmt.Sprintf("%s: a refused request (id %d) sent in the middle changed the measurement in progress: its report echoes request id %d instead of %d", sc, invalidID, final.RequestId, reqID)})
+		}
 		out.findings = append(out.findings, c18f("response/request-id", trig, "%s: response echoes request id %d, want %d", sc, final.RequestId, reqID))
 	}
 	if len(issued) != int(sc.N) {
@@ -412,7 +451,8 @@ func partSignedLatency(c *check.Ctx, a *acc) {
 				slCase{N: n, Wallet: "0xW", Behave: "duplicate", DupRound: 1 + i%int(n-1)},
 				slCase{N: n, Wallet: "0xW", Behave: "unknown"},
 				slCase{N: n, Wallet: "0xW", Behave: "replay-after"},
-				slCase{N: n, Wallet: "0xW", Behave: "restart"})
+				slCase{N: n, Wallet: "0xW", Behave: "restart"},
+				slCase{N: n, Wallet: "0xW", Behave: "invalid-mid", DupRound: i})
 		}
 	}
 	for i := 0; i < c.Pick(2, 6); i++ {
